@@ -848,7 +848,7 @@ func (ck *checker) generate() error {
 	bfsWorkers := c.Pick(2, 2)
 	simFam := family{name: "sim", roots: fullPool, init: "rich", steps: 25, maxSel: 3, maxIdx: 3, copyTypes: []string{"int", "A", "S", "L", "AS", "PI", "F", "M", "MS"},
 		kinds: append(append([]string{}, allKinds...), newKinds...),
-		excl:  []string{"F_C04_3"}} // F-C04-1 and F-C04-2 are repaired: their constructs are back in the random tier
+		excl:  []string{}} // F-C04-1, F-C04-2 and F-C04-3 are repaired: their constructs are back in the random tier
 	if only == "" || only == "sim" {
 		for j := 0; j < simJVMs; j++ {
 			f := simFam
